@@ -229,6 +229,10 @@ def templates(tier):
     yield "call-permuted-names", "return hs(x, y)"
     yield "call-nested", "return h(h(x, y), h(y, x))"
     yield "call-nested", "return hs(hs(y, x), x)"
+    # look-alike library functions with a CONSTANT among their arguments (these fold at translation time)
+    for body in ("np.minimum(3, y) - x", "np.maximum(0.5, y) + x", "np.minimum(x, 1.0) * y", "np.positive(-2.0) * x + y", "np.greater(3, 3.0) * x + y",
+                 "np.less(2.0, 2) * x - y", "np.greater_equal(2.0, 2) * x - y", "math.cbrt(-8.0) * x + y", "np.sign(-0.0) * x + y"):
+        yield "libcall-lookalike-constant", "return " + body
     # library functions and constants
     for e in Em:
         for f in ("math.exp({})", "math.sqrt(abs({}))", "numpy.exp({})", "np.sqrt(abs({}))", "abs({})", "math.log(abs({}) + 1.0)",
